@@ -214,7 +214,17 @@ def gen_names(tree, rootkind, rng, n):
     def mutate(s):
         r = rng.random()
         parts = s.split(b"/")
-        if r < 0.10:
+        if r < 0.08:
+            return s
+        if r < 0.20:            # harmless respellings of the same path: repeated separators, '.' segments, leading './'
+            o = b"./" * rng.choice((0, 0, 1, 2))
+            for i, p in enumerate(parts):
+                o += p
+                if i < len(parts) - 1:
+                    o += rng.choice((b"/", b"/", b"//", b"/./", b"///", b"/.//"))
+            return o
+        r = (r - 0.20) / 0.80
+        if r < 0.02:
             return s
         if r < 0.16:
             return s + rng.choice((b"/", b"//", b"/.", b"/./", b"/..", b"/../" + parts[-1], b".", b" ", b"\0", b"\0.txt", b"%00", b"/" + parts[-1]))
